@@ -97,6 +97,7 @@ def coq_property(pid, timeout=900):
         return res
     src = open(f).read()
     names = [m.group(2) for m in THEOREM_RE.finditer(src)]
+    thm_names = [m.group(2) for m in THEOREM_RE.finditer(src) if m.group(1) != "Example"]
     res["obligations"] = len(names)
     res["theorems"] = names
     t0 = time.time()
@@ -113,7 +114,7 @@ def coq_property(pid, timeout=900):
     res["discharged"] = len(names)
     # every theorem must be followed by a Print Assumptions that is closed (we allow no axioms at all)
     n_print = len(re.findall(r"Print Assumptions", src))
-    res["ok"] = (closed == n_print) and not axioms and n_print >= len([n for n in names if n.startswith(pid)])
+    res["ok"] = (closed == n_print) and not axioms and n_print >= len([n for n in thm_names if n.startswith(pid)])
     res["closed"] = closed
     res["print_assumptions"] = n_print
     return res
